@@ -55,6 +55,7 @@ func init() {
 		PanicIsViolation: false, CPUBudget: 300, Chunk: 4, MinNontrivial: 50,
 		Gen:  genC20,
 		Exec: execC20,
+		Post: postC20,
 	})
 }
 
@@ -106,6 +107,19 @@ func c20Judge(o *d2graph.Object, px, py float64) (fail string, detail string) {
 	near := false
 	inside := ""
 	best := math.Inf(1)
+	// the statement's extent has OUTSIDE labels / icons only: a border label straddles the box
+	// border, so a point on the box border is trivially "inside" it — border parts are dropped
+	var kept []layPart
+	for _, p := range parts {
+		if p.Kind == "label" && o.LabelPosition != nil && !label.FromString(*o.LabelPosition).IsOutside() {
+			continue
+		}
+		if p.Kind == "icon" && o.IconPosition != nil && !label.FromString(*o.IconPosition).IsOutside() {
+			continue
+		}
+		kept = append(kept, p)
+	}
+	parts = kept
 	for _, p := range parts {
 		r := p.R
 		t := tol
@@ -162,6 +176,14 @@ func c20Judge(o *d2graph.Object, px, py float64) (fail string, detail string) {
 	hx1, hy1, hx2, hy2 := box.X, box.Y, box.X2(), box.Y2()
 	for _, p := range parts {
 		r := p.R
+		if p.Kind == "icon" && o.IconPosition != nil {
+			// Spacing() reserves MAX_ICON_SIZE for an outside icon whatever size is finally drawn
+			pos := label.FromString(*o.IconPosition)
+			tl := pos.GetPointOnBox(geo.NewBox(geo.NewPoint(box.X, box.Y), box.W, box.H), label.PADDING, d2target.MAX_ICON_SIZE, d2target.MAX_ICON_SIZE)
+			alt := layRect{tl.X - label.PADDING, tl.Y - label.PADDING, d2target.MAX_ICON_SIZE + 2*label.PADDING, d2target.MAX_ICON_SIZE + 2*label.PADDING}
+			hx1, hy1 = math.Min(hx1, alt.X), math.Min(hy1, alt.Y)
+			hx2, hy2 = math.Max(hx2, alt.X2()), math.Max(hy2, alt.Y2())
+		}
 		if p.Kind == "label" || p.Kind == "icon" {
 			r = layRect{r.X - label.PADDING, r.Y - label.PADDING, r.W + 2*label.PADDING, r.H + 2*label.PADDING}
 		}
@@ -203,16 +225,12 @@ func c20Features(o *d2graph.Object) string {
 		p := label.FromString(*o.LabelPosition)
 		if p.IsOutside() {
 			f = append(f, "outside-label")
-		} else if p.IsBorder() {
-			f = append(f, "border-label")
 		}
 	}
 	if o.Icon != nil && o.IconPosition != nil && sv != "image" {
 		p := label.FromString(*o.IconPosition)
 		if p.IsOutside() {
 			f = append(f, "outside-icon")
-		} else if p.IsBorder() {
-			f = append(f, "border-icon")
 		}
 	}
 	if o.Style.ThreeDee != nil && o.Style.ThreeDee.Value == "true" {
@@ -285,21 +303,70 @@ func execC20(c run.Case) (res run.Result) {
 					continue
 				}
 				ends++
-				res.Inc("endpoints_" + in.Engine)
+				if cross {
+					res.Inc("endpoints_cross")
+				} else {
+					res.Inc("endpoints_" + in.Engine)
+				}
 				fail, detail := c20Judge(end.o, end.p.X, end.p.Y)
 				if fail == "" {
 					continue
 				}
-				router := "engine"
+				router := in.Engine
 				if cross {
-					router = "cross-diagram-router"
+					router = "cross-diagram-router" // d2layouts.DefaultRouter / d2grid: the same code under both engines
 				}
+				other := e.Dst
+				if end.name == "dst" {
+					other = e.Src
+				}
+				ownDesc := other != end.o && other.IsDescendantOf(end.o)
+				related := other != end.o && (other.IsDescendantOf(end.o) || end.o.IsDescendantOf(other))
+				feat := c20Features(end.o)
+				hasMargin := strings.Contains(feat, "outside-") || strings.Contains(feat, "3d") || strings.Contains(feat, "multiple")
+				if strings.HasPrefix(fail, "inside-3d-copy") || strings.HasPrefix(fail, "inside-multiple-copy") {
+					fail = "inside-offset-copy"
+				}
+				ow, oh := layObjRect(e.Src).Overlap(layObjRect(e.Dst))
+				trig := "other"
+				switch {
+				case cross && fail == "inside-offset-copy":
+					// DefaultRouter / grid routing trace to the box and ignore the 3d / multiple copy
+					trig = "offset-copy-ignored"
+				case cross && fail == "detached" && related:
+					// centre-to-centre segment lies wholly inside the container (or starts inside the
+					// descendant): TraceToShape finds no intersection and the route keeps the centre
+					trig = "edge-between-ancestor-and-descendant"
+				case cross && fail == "detached" && e.Src != e.Dst && !related && ow > 1 && oh > 1:
+					// the two end objects overlap (a C19 defect): the centre-to-centre segment never leaves one of them
+					trig = "overlapping-endpoints"
+				case in.Engine == "elk" && !cross && fail == "detached" && hasMargin && (e.Src == e.Dst || ownDesc):
+					// Object.ShiftDescendants (reflexive IsDescendantOf) moves self loops and edges to own
+					// descendants by margin/2 when the ELK node is shrunk back by its margin
+					trig = "self-loop-or-own-descendant-edge-on-object-with-margin"
+				case in.Engine == "elk" && !cross && fail == "detached" && end.o.IsSequenceDiagram():
+					trig = "sequence-diagram-endpoint"
+				case in.Engine == "dagre" && !cross && fail == "detached" && e.Src == e.Dst && strings.Contains(feat, "outside-label") && (strings.Contains(feat, "3d") || strings.Contains(feat, "multiple")):
+					// GetMargin adds the modifier offset on top of the outside label's margin
+					trig = "self-loop-margin-adds-modifier-offset-to-outside-label"
+				case in.Engine == "dagre" && !cross && (hasMargin || len(end.o.ChildrenArray) > 0 || (end.o.Parent != nil && end.o.Parent.Parent != nil)):
+					// dagre routes and chops first and then moves/resizes objects to make room for margins
+					// (outside labels/icons, 3d/multiple) and container padding: adjustRankSpacing,
+					// adjustCrossRankSpacing → shiftReachableDown, fitContainerPadding. End points of objects that
+					// take part in that (they have a margin, are containers or live in one) are sometimes not
+					// taken along. A failing end point on a root-level leaf without margin is NOT in this class.
+					trig = "object-moved-by-spacing-adjustment-after-routing"
+				}
+				res.Inc("fail_" + router + "_" + trig)
 				loop := ""
 				if e.Src == e.Dst {
 					loop = ":self-loop"
 				}
+				if ownDesc {
+					loop += ":to-own-descendant"
+				}
 				_ = dir
-				sig := fmt.Sprintf("C20.endpoint-%s:%s:%s:%s%s", fail, in.Engine, router, c20Features(end.o), loop)
+				sig := fmt.Sprintf("C20.endpoint:%s:%s:%s:%s%s", router, trig, fail, feat, loop)
 				if sigSeen[sig] {
 					res.Inc("additional_violations_same_signature")
 					continue
@@ -316,6 +383,48 @@ func execC20(c run.Case) (res run.Result) {
 		res.Inc("vacuous_fewer_than_two_endpoints")
 	}
 	return
+}
+
+// c20RateLimits: the recorded findings are matched by signature; so that a matched class cannot
+// hide a regression that makes it the norm, the share of failing end points per class is bounded
+// (limits ≈ 4× the rates observed on the unchanged tree at seeds 1–5; counters fail_<class> and
+// endpoints_<engine> in the evidence).
+var c20RateLimits = map[string]struct {
+	of    string
+	limit float64
+}{
+	"fail_dagre_object-moved-by-spacing-adjustment-after-routing":       {"endpoints_dagre", 0.03},
+	"fail_dagre_self-loop-margin-adds-modifier-offset-to-outside-label": {"endpoints_dagre", 0.01},
+	"fail_elk_self-loop-or-own-descendant-edge-on-object-with-margin":   {"endpoints_elk", 0.06},
+	"fail_elk_sequence-diagram-endpoint":                                {"endpoints_elk", 0.02},
+	"fail_cross-diagram-router_offset-copy-ignored":                     {"endpoints_cross", 0.15},
+	"fail_cross-diagram-router_edge-between-ancestor-and-descendant":    {"endpoints_cross", 0.10},
+	"fail_cross-diagram-router_overlapping-endpoints":                   {"endpoints_cross", 0.05},
+}
+
+func postC20(d *run.Driver, results []run.Result) {
+	tot := map[string]int{}
+	for _, r := range results {
+		for k, v := range r.Feat {
+			if strings.HasPrefix(k, "fail_") || strings.HasPrefix(k, "endpoints_") {
+				tot[k] += v
+			}
+		}
+	}
+	rates := map[string]float64{}
+	for k, lim := range c20RateLimits {
+		n := tot[lim.of]
+		if n < 200 {
+			continue // too few observations for a rate
+		}
+		rate := float64(tot[k]) / float64(n)
+		rates[k] = math.Round(rate*10000) / 10000
+		if rate > lim.limit {
+			d.ReportViolation(run.Case{ID: "rate", Kind: "post"}, run.Violation{Clause: "C20.failure-rate", Sig: "C20.failure-rate:" + strings.TrimPrefix(k, "fail_"),
+				Msg: fmt.Sprintf("%d of %d end points (%.2f%%) fail in class %s; limit %.2f%%", tot[k], n, rate*100, k, lim.limit*100)})
+		}
+	}
+	d.Extra["failure_rates"] = rates
 }
 
 func c20Route(e *d2graph.Edge) string {
